@@ -9,5 +9,5 @@ Proof.
   intros Hp. intros HR HS HC HI Hs. pres_start_part s l Hs Hp.
   all: destruct HR; destruct HS; destruct HC; destruct HI; constructor; unf; cbn in *.
   all: try assumption.
-  all: try solve [timeout 60 fin2].
+  all: fin2.
 Qed.
